@@ -6,6 +6,8 @@ Oracle for graceful shutdown (C36); harness: harness/cmd/shutdown.
 case args: workers=<n> tt=<ns> sd=<ns> p=<ns> bto=<ns> mb=<n> nd=<n> keep=<bits>
 ops:  span <dt> <t> <sid> <root> <peer> <dest>   (ext: owner = <w>)
       hold <w> | tick <ns> | fwd | ev <sid> <dest> | txtick <ns> | stop | tickstop <ns> | txstop | gor | agent
+retry cases (kind=retry mb=<n> r=<Retry-After s> code=<429|503> lim=<one 0|1 per destination> nd=<n>): rev <sid> <dest> | radv <s> | rstop
+      obs: <ok|panic|blocked> u=<batches delivered> sl=<batches asleep> early=<retries before the instant> rej=<batches refused twice>
 agent cases (kind=agent script=<o|O|p|P|f joined by '.', or ->): agnew | agadd | agtick | agsent | agstop
 obs:  see harness/cmd/shutdown/main.go; every obs of a model op ends with
       h=<sid[!p|!b],…|-> u=<d<dest>:<sid.sid…>,…|->
@@ -26,6 +28,8 @@ structure OSt where
   s : St := {}
   script : List SendOut := []     -- agent cases: the scripted OpAMP client
   u : Option USt := none          -- the usage loop of the agent under test
+  rc : RCfg := {}                 -- retry cases: batch size, Retry-After, limited destinations
+  rs : RSt := {}
 
 def keepFn (bits : List Bool) (t : Nat) : Bool := (bits[t]?).getD true
 
@@ -107,6 +111,13 @@ def agentOp (o : OSt) (f : USt → USt) : OSt × Option String :=
       ({ o with u := some u' },
        some s!"loc={ulocStr u'.loc} calls={u'.calls} tick={b10 u'.tick} data={b10 u'.cur}{b10 u'.last}")
 
+/-- retry cases: one operation on the transmission in front of the rate-limited upstream -/
+def retryOp (o : OSt) (op : ROp) : OSt × Option String :=
+  let r := rstep o.rc o.rs op
+  let u := sortStr ((r.1.delivered.drop o.rs.delivered.length).map batchStr)
+  ({ o with rs := r.1 },
+   some s!"{enqStr r.2} u={listOr "," u} sl={r.1.sleeping.length} early={r.1.early - o.rs.early} rej={r.1.dropped.length - o.rs.dropped.length}")
+
 def parseScript (s : String) : List SendOut :=
   if s == "-" then [] else (s.splitOn ".").filterMap fun t =>
     if t == "o" then some (.ok false) else if t == "O" then some (.ok true)
@@ -179,6 +190,15 @@ def oStep (o : OSt) (op : List String) (exts : List (List String)) : OSt × Opti
       let pend : Int := if s'.tx.locked then -1 else ((s'.tx.pending.map (·.2.2.length)).foldl (· + ·) 0 : Nat)
       s!"pend={pend} fl=0"
   | ["gor"] => (o, some "*")
+  | ["rev", sid, dest] =>
+    match sid.toNat?, dest.toNat? with
+    | some sid, some dest => retryOp o (.ev sid dest)
+    | _, _ => (o, some "bad-op")
+  | ["radv", n] =>
+    match n.toNat? with
+    | some n => retryOp o (.adv n)
+    | none => (o, some "bad-op")
+  | ["rstop"] => retryOp o .stop
   | ["agnew"] => ({ o with u := some { script := o.script } }, some "ok")
   | ["agadd"] => agentOp o fun u => u.added
   | ["agtick"] => agentOp o fun u => u.ticked
@@ -255,6 +275,11 @@ def agentFails (toks : List String) : List Fail :=
   let f2 := if us != "gone" then [mkFail "agent-goroutine-left-after-stop:usage" s!"after Agent.Stop reportUsagePeriodically is still there, blocked in state '{us}' (idle = its own select, pending = waiting for a pending custom message, sent = waiting for the send to complete)"] else []
   f1 ++ f2
 
+/-- a retry must not reach the upstream before the Retry-After interval is over (fake clock) -/
+def retryFails (toks : List String) (when_ : String) : List Fail :=
+  let early := (kv toks "early").getD "0"
+  if early != "0" then [mkFail s!"retry-before-interval:{when_}" s!"{early} retry attempt(s) reached the upstream before the announced Retry-After instant"] else []
+
 def shMon (m : Mon) (op : List String) (_ : List (List String)) (obs : Option String) : Mon × List Fail :=
   match obs with
   | none => (m, [])
@@ -330,6 +355,15 @@ def shMon (m : Mon) (op : List String) (_ : List (List String)) (obs : Option St
       if m.cstopped && m.tstopped && left != "-" then
         (m, [mkFail "goroutines-left-after-stop" s!"goroutines created by {left} are still there after both Stops"])
       else (m, [])
+    | ["rev", sid, _] =>
+      match sid.toNat? with
+      | some sid => (if first == "ok" then { m with txacc := sid :: m.txacc } else m, ft ++ retryFails toks "steady")
+      | none => (m, ft)
+    | ["radv", _] => (m, ft ++ retryFails toks "steady")
+    | ["rstop"] =>
+      let missing := m.txacc.filter fun id => !m.ups.contains id
+      let f := if !missing.isEmpty then [mkFail "pending-batch-lost:retry-after" s!"events {natList missing} were accepted before Stop (pending, or in a batch sleeping on its Retry-After); the upstream accepts once the Retry-After interval is over, but when Stop returned they had not been delivered"] else []
+      ({ m with tstopped := true }, ft ++ retryFails toks "during-stop" ++ f)
     | ["agent"] => (m, agentFails toks)
     | ["agstop"] => (m, agentFails toks)
     | _ => (m, ft)
@@ -339,7 +373,10 @@ def comp : Component OSt Mon where
     let nat (k : String) : Nat := ((kv args k).getD "0").toNat?.getD 0
     let bits := ((kv args "keep").getD "").toList.map (· != '0')
     { c := { nw := nat "workers", tt := nat "tt", sd := nat "sd", bto := nat "bto", mb := nat "mb", fixed := variant },
-      keep := bits, script := parseScript ((kv args "script").getD "-") }
+      keep := bits, script := parseScript ((kv args "script").getD "-"),
+      rc := { mb := nat "mb", r := nat "r",
+              lim := (((kv args "lim").getD "").toList.zipIdx.filter (·.1 == '1')).map (·.2),
+              stopWakes := false } }
   step := oStep
   minit := fun args => { keep := ((kv args "keep").getD "").toList.map (· != '0') }
   mon := shMon
